@@ -284,9 +284,10 @@ class Check:
 
     # ------------------------------------------------------------------
     def coq_cases(self, tag: str, preamble: str, case_type: str, cases: list[str], check_fn: str,
-                  legal_fn: str | None = None, shard: int = 200, timeout=900):
+                  legal_fn: str | None = None, shard: int = 200, timeout=900, extra: list[str] | None = None):
         """Evaluate `mismatches check_fn cases` inside Coq, sharded.
-        Returns (mismatches [(case, step)], legal_count, errors)."""
+        Returns (mismatches [(case, step)], legal_count, errors).  `extra`: further expressions over `cases`
+        evaluated in every shard; their raw outputs are collected in self.last_extra (one list per shard)."""
         files = []
         for k in range(0, len(cases), shard):
             body = [preamble, f"Definition cases : list {case_type} := ["]
@@ -295,10 +296,13 @@ class Check:
             body.append(f"Eval vm_compute in (mismatches {check_fn} cases).")
             if legal_fn:
                 body.append(f"Eval vm_compute in (count_true {legal_fn} cases).")
+            for e in (extra or []):
+                body.append(f"Eval vm_compute in ({e}).")
             f = self.work / f"{tag}_{k // shard}.v"
             f.write_text("\n".join(body) + "\n")
             files.append((k, f))
         mism, legal, errors = [], 0, []
+        self.last_extra = []
         with cf.ThreadPoolExecutor(max_workers=min(NPROC, int(os.environ.get('VERIF_COQ_JOBS', '8')))) as ex:
             futs = {ex.submit(coqc_file, f, timeout): (k, f) for k, f in files}
             for fu in cf.as_completed(futs):
@@ -312,6 +316,8 @@ class Check:
                 mism += [(k + c, s) for c, s in coqio.parse_pairs(parts[0])]
                 if legal_fn:
                     legal += coqio.parse_nat(parts[1])
+                if extra:
+                    self.last_extra.append(parts[(2 if legal_fn else 1):])
         self.checker_cmds.append(f"coqc {tag}_*.v ({len(files)} shards, comparison by vm_compute inside Coq)")
         return sorted(mism), legal, errors
 
